@@ -3,7 +3,7 @@
 From Coq Require Import ZArith List Bool Lia.
 Import ListNotations.
 From TD Require Import Spec.PySlice Spec.C16_ObjArray Model.C16_NonTensor.
-From TD Require Import Proofs.C16_BasicsP Proofs.C16_StackP Proofs.C16_SpecP Proofs.C16_IndexP Proofs.C16_MiscP Proofs.C16_TolistP Proofs.C16_AssignP.
+From TD Require Import Proofs.C16_BasicsP Proofs.C16_StackP Proofs.C16_SpecP Proofs.C16_IndexP Proofs.C16_TolistP Proofs.C16_AssignP Proofs.C16_MiscP.
 Open Scope nat_scope.
 
 (* maybe_to_stack / from_nontensordata change the representation, never the array *)
@@ -113,37 +113,37 @@ Theorem C16_setitem_history : forall ws x y sh,
 Proof. exact writes_history. Qed.
 Print Assumptions C16_setitem_history.
 
-(* get_non_tensor / NonTensorStack.data.  Full statement: the unique value is returned only when every position holds it. *)
-Definition C16_data_full_statement : Prop :=
-  forall x p, wf x = true -> data_prop x = Some p -> forall I q, denote x I = Some q -> q = p.
-(* true for a stack of NonTensorData members (and then exactly when they all hold p) ... *)
-Theorem C16_data_partial : forall d p0 sh0 r p,
+(* get_non_tensor / NonTensorStack.data on a stack of NonTensorData members: the unique value iff all members hold it *)
+Theorem C16_data_flat : forall d p0 sh0 r p,
   forallb is_shared r = true ->
   (data_prop (Stack d (Shared p0 sh0 :: r)) = Some p <->
    p = p0 /\ Forall (fun m => exists sh, m = Shared p sh) (Shared p0 sh0 :: r)).
 Proof. exact data_flat. Qed.
-Print Assumptions C16_data_partial.
-(* ... false as soon as a member is itself a stack (finding C16-a) *)
-Theorem C16_data_refuted : exists x p, wf x = true /\ data_prop x = Some p /\ exists I q, denote x I = Some q /\ q <> p.
-Proof. exact data_refuted. Qed.
-Print Assumptions C16_data_refuted.
+Print Assumptions C16_data_flat.
 
-(* torch.cat of NonTensorData entries.  Full statement: position k of the result holds the object of the operand it comes from. *)
-Definition C16_cat_full_statement : Prop :=
-  forall a b y n, cat_shared [a; b] 0 = Ok y -> shape a = Some [n] -> forall k, denote y [n + k] = denote b [k].
-Theorem C16_cat_partial : forall p l dim y,
-  Forall (fun m => exists sh, m = Shared p sh) l -> cat_shared l dim = Ok y -> exists sh, y = Shared p sh.
-Proof. exact cat_partial. Qed.
-Print Assumptions C16_cat_partial.
-Theorem C16_cat_refuted : exists a b y, cat_shared [a; b] 0 = Ok y /\ shape a = Some [1] /\ shape b = Some [1] /\ shape y = Some [2] /\
-                                        denote y [1] <> denote b [0].
-Proof. exact cat_refuted. Qed.
-Print Assumptions C16_cat_refuted.
+(* get_non_tensor / NonTensorStack.data (after the repair of C16-a), full statement: whenever a unique value is returned,
+   every position of the entry holds it — any nesting of stacks along any dims *)
+Theorem C16_data_sound : forall x p, wf x = true -> data_prop x = Some p -> forall I q, denote x I = Some q -> q = p.
+Proof. exact data_full. Qed.
+Print Assumptions C16_data_sound.
 
-(* to_dict (D20): fine for a shared object, raises for every stack *)
-Theorem C16_to_dict_refuted : fixed_D20 = false -> exists x, wf x = true /\ to_dict x = Raised.
-Proof. exact to_dict_refuted. Qed.
-Print Assumptions C16_to_dict_refuted.
+(* torch.cat of the non-tensor entries of two tensordicts (after the repair of C16-d): position k along dim holds the object
+   of the operand it comes from, whatever the representations (shared objects, stacks along any dim) *)
+Theorem C16_cat_denote : forall a b dim y sa sb na nb,
+  wf a = true -> wf b = true -> shape a = Some sa -> shape b = Some sb ->
+  nth_error sa dim = Some na -> nth_error sb dim = Some nb -> remove_at dim sa = remove_at dim sb ->
+  cat_nt [a; b] dim = Ok y ->
+  forall I k, nth_error I dim = Some k ->
+    denote y I = if k <? na then denote a I else denote b (insert_at dim (k - na) (remove_at dim I)).
+Proof. exact cat_denote. Qed.
+Print Assumptions C16_cat_denote.
+
+(* to_dict (after the repair of D20): the nested list of a stack is the array in batch order *)
+Theorem C16_to_dict_rowmajor : forall d l sh t,
+  wf (Stack d l) = true -> shape (Stack d l) = Some sh -> to_dict (Stack d l) = Ok (GList t) ->
+  tree_of sh (denote (Stack d l)) = Some t.
+Proof. exact to_dict_stack. Qed.
+Print Assumptions C16_to_dict_rowmajor.
 
 (* non-vacuity *)
 Example C16_ex_index :
@@ -170,3 +170,10 @@ Proof.
   repeat split; try reflexivity.
   repeat constructor; cbn; try lia; (eexists; repeat split; reflexivity).
 Qed.
+Example C16_ex_fixed :
+  data_prop (Stack 0 [Stack 0 [Shared 1%Z []; Shared 1%Z []]; Stack 0 [Shared 2%Z []; Shared 2%Z []]]) = None /\
+  data_prop (Stack 1 [Shared 1%Z [2]; Stack 0 [Shared 1%Z []; Shared 1%Z []]]) = Some 1%Z /\
+  cat_nt [Shared 1%Z [1]; Shared 2%Z [1]] 0 = Ok (Stack 0 [Shared 1%Z []; Shared 2%Z []]) /\
+  cat_nt [Shared 1%Z [1; 2]; Shared 1%Z [1; 1]] 1 = Ok (Shared 1%Z [1; 3]) /\
+  to_dict (Stack 0 [Shared 1%Z []; Shared 2%Z []]) = Ok (GList (Node [Leaf 1%Z; Leaf 2%Z])).
+Proof. repeat split; vm_compute; reflexivity. Qed.
